@@ -95,6 +95,8 @@ def cases(E):
     # every block / named scope / application / iteration gets a scope object of its own (never an earlier sibling's)
     from vf.props import C08 as _c08
     cs += _c08.scope_creation_cases(E)
+    # conditions and bounds read names defined any number of scopes further out, through scopes that define nothing themselves
+    cs += _c08.chain_cases(E)
     return cs
 
 
